@@ -260,7 +260,7 @@ func c37MaskStr(mask uint) string {
 
 type c37Stats struct {
 	evals, nonEmpty, dedup, blockedRemoved, multiClass, samePortVariants, relayEvals, relayDedup atomic.Int64
-	hard, stale atomic.Int64 // violations other than / of the 'cleared but not rebuilt' kind
+	hard, stale                                                                                  atomic.Int64 // violations other than / of the 'cleared but not rebuilt' kind
 	classSeen                                                                                    [4]atomic.Int64
 	mu                                                                                           sync.Mutex
 	orders                                                                                       map[[2]uint]string // (pref, set mask) -> order seen
